@@ -342,3 +342,100 @@ def implied_compares(test: ast.expr) -> List[Tuple[str, str, str]]:
             if t is not None:
                 out.append(negate_compare(t) if neg else t)
     return out
+
+
+# ---------------------------------------------------------------------------------------------
+class FlagInterp(PathInterp):
+    """Disjunctive flag domain: a state is a frozenset of frozensets of flags (one per path class).
+
+    test_rules : list of (predicate(test_expr) -> bool, flags_on_true, flags_on_false)
+    stmt_rules : list of (predicate(stmt) -> bool, flags_added)
+    call_rules : list of (predicate(call) -> bool, flags_added)
+    raise_rules: exception classes a call may raise: list of (predicate(call) -> bool, [classes])
+    """
+
+    def __init__(self, fn: FuncInfo, hierarchy: Optional[ExcHierarchy] = None, test_rules=(), stmt_rules=(),
+                 call_rules=(), raise_rules=()):
+        super().__init__(fn, hierarchy)
+        self.test_rules, self.stmt_rules, self.call_rules, self.raise_rules = test_rules, stmt_rules, call_rules, raise_rules
+        self.events: List[Tuple[str, ast.AST, Any]] = []
+        self.raises: List[Tuple[ast.Raise, Any]] = []
+
+    @staticmethod
+    def start() -> Any:
+        return frozenset([frozenset()])
+
+    def join(self, a, b):
+        return a | b
+
+    @staticmethod
+    def add(st, flags) -> Any:
+        flags = frozenset(flags)
+        return frozenset(el | flags for el in st)
+
+    def on_test(self, test, st):
+        t, f = st, st
+        for pred, ft, ff in self.test_rules:
+            if pred(test):
+                t, f = self.add(t, ft), self.add(f, ff)
+        return t, f
+
+    def on_stmt(self, s, st):
+        for pred, flags in self.stmt_rules:
+            if pred(s):
+                self.events.append(('stmt', s, st))
+                st = self.add(st, flags)
+        return st
+
+    def on_call(self, c, st):
+        for pred, flags in self.call_rules:
+            if pred(c):
+                self.events.append(('call', c, st))
+                st = self.add(st, flags)
+        return st
+
+    def may_raise(self, c, st):
+        out: List[str] = []
+        for pred, classes in self.raise_rules:
+            if pred(c):
+                out.extend(classes)
+        return out
+
+    def on_raise(self, s, st):
+        self.raises.append((s, st))
+
+
+def guards_and_stores(fn: FuncInfo, param_names: Set[str], selfname: str = 'self'):
+    """Top-down scan of a setter-like function: raising guards that read a parameter, and self stores.
+
+    Returns (guards, stores): guards = [(lineno, test_src)], stores = [(lineno, attr, stmt_src)].
+    A guard is `if T: ...raise` (the true branch always ends in raise) or `assert T`, with T reading a parameter.
+    """
+    from .model import is_self_attr, walk_no_nested
+    guards: List[Tuple[int, str]] = []
+    stores: List[Tuple[int, str, str]] = []
+
+    def reads_param(e: ast.AST) -> bool:
+        return any(isinstance(n, ast.Name) and n.id in param_names for n in ast.walk(e))
+
+    def always_raises(body: List[ast.stmt]) -> bool:
+        if not body:
+            return False
+        last = body[-1]
+        if isinstance(last, ast.Raise):
+            return True
+        if isinstance(last, ast.If) and last.orelse:
+            return always_raises(last.body) and always_raises(last.orelse)
+        return False
+
+    for n in walk_no_nested(fn.node):
+        if isinstance(n, ast.If) and reads_param(n.test) and (always_raises(n.body) or always_raises(n.orelse)):
+            guards.append((n.lineno, norm(n.test)))
+        elif isinstance(n, ast.Assert) and reads_param(n.test):
+            guards.append((n.lineno, norm(n.test)))
+        elif isinstance(n, (ast.Assign, ast.AnnAssign, ast.AugAssign)):
+            for t in (n.targets if isinstance(n, ast.Assign) else [n.target]):
+                a = is_self_attr(t, selfname)
+                if a is not None:
+                    stores.append((n.lineno, a, norm(n)))
+    return sorted(guards), sorted(stores)
